@@ -38,12 +38,17 @@ def run_vector(h, inputs, all_seeds=True):
 
 def _run_once(h, inputs, opts):
     b = RealBackend(**opts)
+    del pse.SOFT_REAL[:]
     try:
         sym = ConcSym(inputs)
         try:
             h.fn(b, sym)
+            if pse.SOFT_REAL:
+                return {"violation": {"assert": pse.SOFT_REAL[0][0], "detail": pse.SOFT_REAL[0][1]},
+                        "all_violations": [{"assert": a, "detail": d} for a, d in pse.SOFT_REAL]}
         except pse.Violation as v:
-            return {"violation": {"assert": v.assert_id, "detail": str(v.detail)}}
+            return {"violation": {"assert": v.assert_id, "detail": str(v.detail)},
+                    "all_violations": [{"assert": a, "detail": d} for a, d in pse.SOFT_REAL] + [{"assert": v.assert_id, "detail": str(v.detail)}]}
         except ReplayInfeasible:
             return {"infeasible": True}
         except pse.PseAbort as ex:
